@@ -337,6 +337,134 @@ func runC07B(args []string) error {
 			}
 		}
 	}
+	// erasure patterns whose elimination needs OVERLAPPING row exchanges (the row permutation is not an
+	// involution: a 3-cycle or longer), found by simulating the elimination with the independent field on
+	// structured candidates (columns whose constants agree in an e-th power, parity rows around multiples of e)
+	{
+		type pat struct{ cols, rows []int }
+		var pats []pat
+		seenPat := map[string]bool{}
+		for _, e := range []int{255, 257, 85, 51} {
+			groups := map[uint16][]int{}
+			for j := 0; j < 300; j++ {
+				v := gfref.Pow16(consts[j], uint64(e))
+				groups[v] = append(groups[v], j)
+			}
+			var gl [][]int
+			for j := 0; j < 300; j++ { // deterministic order
+				v := gfref.Pow16(consts[j], uint64(e))
+				if g := groups[v]; len(g) >= 2 && g[0] == j {
+					gl = append(gl, g)
+				}
+			}
+			if len(gl) == 0 {
+				continue
+			}
+			rowPool := []int{0, 1, e, e + 1, e + 2, e + 3, 2 * e, 2*e + 1}
+			for try := 0; try < 60000 && len(pats) < 12; try++ {
+				k := 3 + rng.Intn(3)
+				g := gl[rng.Intn(len(gl))]
+				colSet := map[int]bool{}
+				for _, j := range g {
+					if len(colSet) < 2+rng.Intn(2) {
+						colSet[j] = true
+					}
+				}
+				for len(colSet) < k {
+					colSet[rng.Intn(300)] = true
+				}
+				rowSet := map[int]bool{0: true}
+				for len(rowSet) < k {
+					rowSet[rowPool[rng.Intn(len(rowPool))]] = true
+				}
+				var cols, rows []int
+				for j := range colSet {
+					cols = append(cols, j)
+				}
+				for r := range rowSet {
+					rows = append(rows, r)
+				}
+				sortInts(cols)
+				sortInts(rows)
+				// simulate: first non-zero pivot at or below the diagonal, swap, eliminate
+				m := make([][]uint16, k)
+				for r := range m {
+					m[r] = make([]uint16, k)
+					for cc := range m[r] {
+						m[r][cc] = gfref.Pow16(consts[cols[cc]], uint64(rows[r]))
+					}
+				}
+				perm := make([]int, k)
+				for i := range perm {
+					perm[i] = i
+				}
+				singular := false
+				for i := 0; i < k && !singular; i++ {
+					pv := -1
+					for r := i; r < k; r++ {
+						if m[r][i] != 0 {
+							pv = r
+							break
+						}
+					}
+					if pv < 0 {
+						singular = true
+						break
+					}
+					m[i], m[pv] = m[pv], m[i]
+					perm[i], perm[pv] = perm[pv], perm[i]
+					inv := gfref.Inv16(m[i][i])
+					for r := i + 1; r < k; r++ {
+						if m[r][i] == 0 {
+							continue
+						}
+						f := gfref.FMul16(m[r][i], inv)
+						for cc := i; cc < k; cc++ {
+							m[r][cc] ^= gfref.FMul16(f, m[i][cc])
+						}
+					}
+				}
+				if singular {
+					continue
+				}
+				involution := true
+				for i := range perm {
+					if perm[perm[i]] != i {
+						involution = false
+					}
+				}
+				key := fmt.Sprint(cols, rows)
+				if involution || seenPat[key] {
+					continue
+				}
+				seenPat[key] = true
+				pats = append(pats, pat{cols, rows})
+			}
+		}
+		for pi, pt := range pats {
+			maxc, maxr := pt.cols[len(pt.cols)-1], pt.rows[len(pt.rows)-1]
+			cs := c07Case{Coder: "vandermonde", D: maxc + 1 + rng.Intn(4), P: maxr + 1, Expect: "none"}
+			miss := map[int]bool{}
+			for _, j := range pt.cols {
+				miss[j+1] = true
+			}
+			for i := 1; i <= cs.D; i++ {
+				if !miss[i] {
+					cs.AvailD = append(cs.AvailD, i)
+				}
+			}
+			for _, r := range pt.rows {
+				cs.AvailP = append(cs.AvailP, r+1)
+			}
+			if err := rsRound(lg, rng, cs, []int{6, 34, 16}[pi%3], []int{1, 2, 3, 4}[pi%4], false); err != nil {
+				return err
+			}
+		}
+		lg.Flush()
+		if len(pats) == 0 {
+			return fmt.Errorf("c07b: no erasure pattern with overlapping row exchanges found")
+		}
+	}
 	// a coding coefficient equal to 0xffff (the last row of every multiplication table): the smallest
 	// (column, exponent) with Const(column)^exponent = 0xffff, shards long enough for the SIMD blocks
 	// and a scalar tail; TLC recomputes that parity row from the definitions
